@@ -153,15 +153,18 @@ def oracle(c, sc, out):
             continue
         b = next((r["i"] for r in cases.body_rows(rows, t) if r["kind"] == "begin" and r["pid"] == rec), None)
         e = next((r["i"] for r in cases.body_rows(rows, t) if r["kind"] == "end" and r["pid"] == rec), None)
+        first_start = next((r["i"] for r in rows if r["who"] == "S0" and r["kind"] == "L" and r["run"] == last
+                            and r["rest"][0] == "aio_start" and r["rest"][2] == str(t)), len(rows) + 1)
         look = [r["i"] for r in rows if r["who"] == "S0" and r["kind"] == "L" and r["run"] == last
-                and r["rest"][0] == "aio_submit" and r["rest"][2] == str(t)]
+                and r["rest"][0] == "aio_submit" and r["rest"][2] == str(t) and r["i"] < first_start]
         if b is None or e is None or not look:
             continue
-        if b < look[0] and e > look[-1] + 0 and states[t].get("launched") and _spawned(rows, last, t):
-            # the body was running during the whole aio_submit of the last run, which nevertheless started a process
-            if e > _first_spawn(rows, last, t):
-                c.violation("C11:relaunched-while-running", f"job {t} was running (pid file written) and was launched again", data)
-                verdict = "violation"
+        if b < look[0] and e > look[-1] and states[t].get("launched"):
+            # the recorded process was inside its body during the whole look-up phase of the last run's aio_submit,
+            # and that run nevertheless started a process of its own
+            c.violation("C11:relaunched-instead-of-adopted", f"job {t} was running (process {rec} recorded in the pid file, "
+                        "inside its body) when the experiment was run again, and a new process was launched for it", data)
+            verdict = "violation"
     return verdict
 
 
